@@ -12,6 +12,16 @@ Decided structurally:
                       Scope::Launch, after the explicit deltas
   R5 never persisted  the two implicit-path fields are private, written only by read_from_layer_dir and
                       read only by apply (plus derived impls); write_to_layer_dir never touches them
+  R6 arms             the Prepend / Delimiter arms of the delta application and the delimiter lookup (shared with C04)
+  R7 whenever         "exactly when", the other direction: the is_dir test of its own directory is the *only* decision an
+                      implicit entry depends on (guard-only: no extra conjunct, no truncating stage), no path through the
+                      row loop / the functions on the way skips the insert once that test passed (always: CFG search per
+                      chain level, "not a directory" edges and edges no row of the table can take removed), and the row
+                      loop is only left when the rows are exhausted (exhaustive: no break / early success return, no
+                      short-circuiting consumer whose closure can say stop);
+                      layer-data: every `LayerData` value gets its env from read_from_layer_dir(<its own path>), so what the
+                      trait API hands out as the layer's environment always carries the implicit entries
+  R5 also             in read_from_layer_dir the explicit deltas receive entries only inside the env directory reader
 R1-R3 are stated on *entries* of the two implicit-path deltas, however they get there (C10_helpers): `insert` calls
 reached through helpers / closures / unrolled table loops (lib/effects, branch decisions as guards), and the entries the
 deltas are constructed with (`LayerEnvDelta { entries: rows.iter().map(..).filter(..).flat_map(..).collect() }` placed in
@@ -27,6 +37,28 @@ from .lib.value import vstr, walk
 SPEC = {('PATH', 'Build', 'bin'), ('LD_LIBRARY_PATH', 'Build', 'lib'), ('LIBRARY_PATH', 'Build', 'lib'),
         ('CPATH', 'Build', 'include'), ('PKG_CONFIG_PATH', 'Build', 'pkgconfig'),
         ('PATH', 'Launch', 'bin'), ('LD_LIBRARY_PATH', 'Launch', 'lib')}
+
+
+class _R6Filter:
+    """forwards the instances of C04.arm_rules that concern implicit entries: the Prepend / Delimiter arms, the delimiter
+    lookup and mutations of the environment outside the per-entry dispatch"""
+    ARMS = ('Prepend', 'Delimiter')
+
+    def __init__(self, rep):
+        self._rep = rep
+
+    def _want(self, subject):
+        return subject == 'delimiter-lookup' or subject.startswith('unclassified/') or any(subject.endswith('/' + a) for a in self.ARMS)
+
+    def check(self, cond, rule, subject, *a, **k):
+        return self._rep.check(cond, rule, subject, *a, **k) if self._want(subject) else cond
+
+    def unproven(self, rule, subject, *a, **k):
+        if self._want(subject):
+            self._rep.unproven(rule, subject, *a, **k)
+
+    def __getattr__(self, n):
+        return getattr(self._rep, n)
 
 
 def run(ctx, rep):
@@ -49,18 +81,45 @@ def run(ctx, rep):
     from . import C10_helpers as H
     E2 = Effects(prog, sl, vocab={L.INSERT: ('INSERT', None)})
     ins = []
+    leaks = []
     for e in E2.expand(g, 'may'):
         if e.kind != 'INSERT' or len(e.args) < 4:
             continue
         tgt = strip(e.args[0])
         fld = tgt[2] if tgt[0] == 'field' and tgt[2] in H.FIELDS else None
+        levels = H.level_calls(e)
         if fld is None and not any(x[0] == 'field' and x[2] in H.FIELDS for x in walk(e.args[0])):
-            continue    # an insert into a delta that is being read from an env directory, not an implicit path
-        views = [(v, oc) for cd, vs, subj in guards_of(E2, e) if cd.kind == 'bool' for v, oc in vs]
+            # an insert into a delta that is being read from an env directory, not an implicit path — provided it does
+            # happen inside the env directory reader: anything else read_from_layer_dir puts into an explicit delta
+            # is written back by write_to_layer_dir (R5)
+            through = set()
+            for c, _ in levels:
+                through.add(c.name)
+                f_ = c.fn
+                for _i in range(6):
+                    through.add(f_.path)
+                    f_ = prog.fns.get(f_.parent) if f_.kind == 'Closure' and f_.parent else None
+                    if f_ is None:
+                        break
+            if L.R_DIR not in through:
+                leaks.append(e)
+            continue
+        conds = [vs for cd, vs, subj in guards_of(E2, e) if cd.kind == 'bool']
+        views = [x for vs in conds for x in vs]
+        gidx = [i for i, vs in enumerate(conds) for _ in vs]
+        # a pipeline in the header of a loop that lib/effects unrolled (`for row in rows.into_iter().filter(p)`): the
+        # predicates of its stages for this row are decisions the entry depends on, like an `if` in the body
+        hviews, hopq = H.header_guards(E2, e)
         # a loop over a table that is literal only in the caller's terms (the rows handed to a private helper as a
         # slice) is unrolled here, row by row, like lib/effects does for a loop over a table literal of its own function
         for a, vs2, opq in H.unrolled(E2, e, tuple(e.args[:4]), views):
-            ins.append(H.Entry(fld, a[0], a[1], a[2], a[3], vs2, e.where(), 'insert', opq))
+            groups = [[] for _ in conds]
+            for i, gi in enumerate(gidx):
+                groups[gi].append(vs2[i])
+            extra = [x for x in vs2[len(gidx):]] + [x for x in hviews if x not in vs2]
+            groups.extend(H.groups_of(extra))
+            ins.append(H.Entry(fld, a[0], a[1], a[2], a[3], list(vs2) + [x for x in hviews if x not in vs2], e.where(), 'insert', opq or hopq,
+                               groups=[g_ for g_ in groups if g_], levels=levels))
     # ... and every entry the two implicit-path deltas are *constructed* with (`LayerEnvDelta { entries: rows.iter()
     # .map(..).filter(..).flat_map(..).collect() }` placed into the returned LayerEnv, directly or through a local closure /
     # private helper): the same records, the predicates of the filtering stages taking the place of the branch decisions.
@@ -126,10 +185,97 @@ def run(ctx, rep):
         rep.violated('R1', 'extra-row/%s/%s' % (row[0], row[1]), where, 'row %s is not in the spec\'s layer path table' % (row,))
     if got:
         rep.check(per_beh.get('Prepend') == 7, 'R1', 'table/size', where, 'exactly 7 rows', '%s Prepend inserts (duplicates or extras)' % per_beh.get('Prepend'))
+    # ---- R7: ... and whenever the directory exists -----------------------------------------------------------------
+    rep.rule('R7', 'an implicit entry exists whenever its directory does: the is_dir test of its own directory is the only decision it depends on, '
+                   'no path skips the insert, the row loop runs to exhaustion; LayerData.env is always a freshly read environment')
+    dir_of = {(n, sc): d for n, sc, d in SPEC}
+    r7 = {}     # behaviour -> {'guard': [..], 'opaque': [..], 'always': [..], 'exhaustive': [..], 'unknown': [..]}
+    tblocks = {}
+    named = []
+    for e in ins:
+        beh, name = strip(e.beh), strip(e.name)
+        bname = beh[2] if beh[0] == 'agg' and beh[1] == L.MB else None
+        scope = {'layer_paths_build': 'Build', 'layer_paths_launch': 'Launch'}.get(e.fld)
+        if bname not in ('Prepend', 'Delimiter') or name[0] != 'const' or (name[1], scope) not in dir_of:
+            continue        # reported by R1 / R3
+        named.append((e, bname, name[1], scope))
+        for c, m in e.levels:
+            tblocks.setdefault((c.fn.path, bname), set()).add(c.bb)
+    done = set()
+    for e, bname, n, sc in named:
+        acc = r7.setdefault(bname, {'guard': [], 'opaque': [], 'always': [], 'exhaustive': [], 'unknown': []})
+        own = dir_of[(n, sc)]
+        for grp in e.groups:
+            if not any(H.is_dir_of(v, root, L.comps, weak=True) == own or H.is_layer_dir_test(v, root, L.comps) for v in grp):
+                acc['guard'].append('%s (%s) also depends on %s == %s' % (n, sc, vstr(grp[-1][0])[:90], grp[-1][1]))
+        if e.opaque:
+            acc['opaque'].append('%s (%s)' % (n, sc))
+        for i, (c, m) in enumerate(e.levels):
+            k = (c.fn.path, c.bb, bname)
+            if k in done:
+                continue
+            done.add(k)
+            probs = H.sufficiency(E2, c, m, tblocks[(c.fn.path, bname)], *((root, L.comps) if c.fn.path == g.path else ()))
+            if i < len(e.levels) - 1:
+                ap = H.adapter_problem(E2, c, m)
+                if ap:
+                    probs.append(ap)
+            for kind, text in probs:
+                if text not in acc[kind]:
+                    acc[kind].append(text)
+    for bname in ('Prepend', 'Delimiter'):
+        acc = r7.get(bname)
+        if acc is None:
+            continue        # no entry of that kind was recognised: R1 / R3 report it
+        if acc['guard']:
+            rep.violated('R7', 'guard-only/' + bname, where, 'implicit %s entries are missing although their directory exists: %s' % (bname, '; '.join(acc['guard'][:3])))
+        elif acc['opaque']:
+            rep.unproven('R7', 'guard-only/' + bname, where, 'implicit %s entries pass a filtering / truncating stage whose effect on the rows could not be '
+                         'expressed: %s' % (bname, ', '.join(acc['opaque'][:4])))
+        else:
+            rep.holds('R7', 'guard-only/' + bname, where, 'is_dir(<layer>/<dir>) of the row is the only decision a %s entry depends on' % bname)
+        for kind, ok_msg in (('always', 'no path skips the insert once the is_dir test of the row passed'),
+                             ('exhaustive', 'the row loop is only left when the rows are exhausted')):
+            if acc[kind]:
+                rep.violated('R7', '%s/%s' % (kind, bname), where, '; '.join(acc[kind][:3]))
+            elif acc['unknown']:
+                rep.unproven('R7', '%s/%s' % (kind, bname), where, '; '.join(acc['unknown'][:3]))
+            else:
+                rep.holds('R7', '%s/%s' % (kind, bname), where, ok_msg)
+    # what the trait API hands to a buildpack as "the layer's environment" (LayerData.env) is always the result of
+    # read_from_layer_dir on the directory of that very layer: an env that was merely written (or carried over) lacks
+    # the implicit entries of directories that exist by now
+    from .lib.value import canon
+    inits = H.layer_data_inits(prog, sl, L.R_LAYER)
+    if not inits:
+        rep.unproven('R7', 'layer-data/env', '-', 'no construction of LayerData was found')
+    for f_, w_, ev, pv, why in inits:
+        top = f_
+        while top.kind == 'Closure' and top.parent in prog.fns:
+            top = prog.fns[top.parent]
+        subj = 'layer-data/env/' + top.path.split('::')[-1]
+        if why:
+            rep.unproven('R7', subj, w_, 'LayerData %s' % why)
+            continue
+        evs = strip(ev)
+        if not (evs[0] == 'call' and evs[1] == L.R_LAYER):
+            # a private wrapper (`read_layer_env(&path)?`) is transparent: the success payload of what it returns
+            evs = strip(sl.mk_unwrap(sl.inline_deep(ev, keep=(L.R_LAYER,)), 1))
+        from_reader = evs[0] == 'call' and evs[1] == L.R_LAYER and len(evs[2]) == 1
+        if not from_reader:
+            rep.violated('R7', subj, w_, 'LayerData.env is not the result of read_from_layer_dir: %s — implicit entries of the layer\'s '
+                         'directories are missing from it' % vstr(evs)[:120])
+            continue
+        same = canon(strip(evs[2][0])) == canon(strip(pv)) or \
+            canon(strip(sl.inline_deep(evs[2][0], keep=(L.R_LAYER,)))) == canon(strip(sl.inline_deep(pv, keep=(L.R_LAYER,))))
+        rep.check(same, 'R7', subj, w_, 'LayerData.env = read_from_layer_dir(LayerData.path)',
+                  'LayerData.env is read from %s but LayerData.path is %s' % (vstr(evs[2][0])[:80], vstr(pv)[:80]))
     # ---- R6: the entries inserted above take effect through the Prepend / Delimiter arms of the delta application --
     from . import C04
     rep.rule('R6', 'Prepend / Delimiter arms of the delta application (shared with C04.R5): value [+ delimiter + previous if non-empty], on every path')
-    C04.arm_rules(ctx, rep, rule='R6', only=('Prepend', 'Delimiter', 'delimiter-lookup'))
+    # (the delimiter lookup and "a mutation outside the per-entry dispatch" are not named after an arm: C04's own arm
+    # filter drops them, so the selection is made here)
+    C04.arm_rules(ctx, _R6Filter(rep), rule='R6', only=None)
     # ---- R4 ----------------------------------------------------------------------------------------
     from . import C04_helpers as H4     # per-Scope evaluation of LayerEnv::apply (independent of how the fold is spelled)
     f, table, why4, _shape = H4.scope_tables(prog)
@@ -180,6 +326,9 @@ def run(ctx, rep):
         bad_readers = [r_ for r_ in readers if not only_from_apply(r_) or r_ in from_writer]
         rep.check(bool(readers) and not bad_readers, 'R5', 'readers/' + fld, where,
                   'read only by apply (and private helpers only apply reaches)', 'read by %s (the writer must never see it)' % (bad_readers or readers))
+    rep.check(not leaks, 'R5', 'reader/explicit-deltas', where, 'in read_from_layer_dir the explicit (persisted) deltas get entries only from the env directory reader',
+              'read_from_layer_dir itself inserts into a delta that write_to_layer_dir persists: %s' %
+              '; '.join('%s at %s' % (', '.join(vstr(a)[:40] for a in e.args[:4]), e.where()) for e in leaks[:3]))
     # the writer persists exactly the four explicit scopes
     # (the writer's effects are taken over values in which a Vec grown through `&mut` — vec![..] + extend / push — before
     # it is iterated is the chain of all its rows (C03_helpers.GrowSlicer, exact or opaque, never the initial literal
